@@ -4,7 +4,9 @@ ID=$1; shift
 cd /verif
 git -C /repo apply /verif/seeded/$ID/patch.diff || exit 2
 for P in "$@"; do
-  ./check.py $P --tier quick 2>&1 | grep -E "VIOLATION|KNOWN|quick:|property fails|implementation:|specification" | cut -c1-220 | head -12
+  ./check.py $P --tier quick > /verif/.run/seed_$P.log 2>&1
+  echo "$P: exit=$? $(grep -c '^VIOLATION' /verif/.run/seed_$P.log) violation line(s); $(grep 'quick:' /verif/.run/seed_$P.log | cut -c1-150)"
+  grep -A3 "property fails" /verif/.run/seed_$P.log | head -4 | cut -c1-200
 done
 git -C /repo checkout -- .
 rm -rf /verif/replays
